@@ -600,7 +600,7 @@ func flood(s *rawSess, stop chan struct{}, sent *int) {
 // block: clients that send requests and never read the answers, and the canary's latency meanwhile.
 // Scenario "flood": one such client. Scenario "subscription": the stalled client also owns a subscription with a monitored
 // item on the canary node and queued publish requests, and the canary changes that node 150 times.
-// Scenario "multichunk": the stalled client asked for one response of many chunks (12 MiB), far more than the socket
+// Scenario "multichunk": the stalled client asked for one response of many chunks (33 MiB), far more than the socket
 // buffers take, so the write blocks on a chunk after the first.
 func block() {
 	var wg sync.WaitGroup
@@ -636,6 +636,7 @@ func blockScenario(scenario string) {
 		fail("raw session", err)
 		return
 	}
+	defer s.conn.Close() // the stalled peer keeps its connection open until the scenario is over (and out of the garbage collector's reach)
 	if tc, ok := s.conn.(*net.TCPConn); ok {
 		tc.SetReadBuffer(4096)
 	}
@@ -675,7 +676,7 @@ func blockScenario(scenario string) {
 	sent := 0
 	if scenario == "multichunk" {
 		q := &ua.ReadRequest{TimestampsToReturn: ua.TimestampsToReturnNeither}
-		for i := 0; i < 250; i++ {
+		for i := 0; i < 700; i++ { // 700 x 48 KiB = 33 MiB, about 520 chunks: more than the socket buffers of both ends take
 			q.NodesToRead = append(q.NodesToRead, &ua.ReadValueID{NodeID: ua.NewStringNodeID(1, "big"), AttributeID: ua.AttributeIDValue, DataEncoding: &ua.QualifiedName{}})
 		}
 		if err := s.send(q); err != nil {
@@ -717,5 +718,8 @@ func blockScenario(scenario string) {
 	out["canary_blocked"] = unanswered > 0 || worst > bound
 	out["requests_sent"] = sent
 	out["alive"] = ch.alive()
+	if os.Getenv("VERIF_SRVLOG") != "" {
+		out["stderr"] = ch.stderrTail()
+	}
 	emit(out)
 }
